@@ -37,6 +37,8 @@ type Conf struct {
 	Test        bool              `json:"test"`
 	Impostor    string            `json:"impostor"` // see impostor.go
 	AckShutdown bool              `json:"ack_shutdown"`
+	// plugin code that prints to os.Stdout / os.Stderr by itself as soon as it is being served (three lines each)
+	Chatter bool `json:"chatter"`
 }
 
 // ackShutdown answers the controller's Shutdown RPC with its (empty) reply and runs go-plugin's own handler, which
@@ -110,6 +112,19 @@ func main() {
 			pool.AppendCertsFromPEM([]byte(c.CertPEM))
 			return &tls.Config{Certificates: []tls.Certificate{cert}, RootCAs: pool, ServerName: "localhost"}, nil
 		}
+	}
+	if c.Chatter {
+		orig := os.Stdout
+		go func() {
+			for os.Stdout == orig { // Serve swaps os.Stdout for its pipe right after the handshake line
+				time.Sleep(2 * time.Millisecond)
+			}
+			for i := 0; i < 3; i++ {
+				fmt.Fprintf(os.Stdout, "C16-PLUGIN-STDOUT %d\n", i)
+				fmt.Fprintf(os.Stderr, "C16-PLUGIN-STDERR %d\n", i)
+				time.Sleep(20 * time.Millisecond)
+			}
+		}()
 	}
 	defer func() {
 		if c.ExitDelayMs > 0 {
